@@ -32,7 +32,8 @@ structure St where
   wire : List Nat := []     -- requests handed to the transport, in order
   responded : List Nat := [] -- responses the reader has processed (the peer answers each request once)
   matched : List Nat := []  -- responses decoded as the response type of their request
-  failed : List Nat := []   -- "No matched request"
+  failed : List Nat := []   -- "No matched request" for a response whose request IS on the wire
+  refused : List Nat := []  -- responses nobody is waiting for (untracked calls, stray or repeated _results): refused
   deriving DecidableEq, Repr
 
 /-- Scheduler choices: the writer runs its next instruction, or the reader processes the response to
@@ -41,6 +42,9 @@ answered. -/
 inductive Act where
   | w
   | r (t : Nat)
+  /-- a `_result`/`_error` for a transaction id that is not outstanding (the peer answering a call the library
+  does not track, a duplicate, garbage): enabled whenever `t` is not in the table; it is refused. -/
+  | stray (t : Nat)
   deriving DecidableEq, Repr
 
 def step (s : St) : Act → Option St
@@ -56,6 +60,8 @@ def step (s : St) : Act → Option St
       else
         some { s with responded := t :: s.responded, failed := t :: s.failed }
     else none
+  | .stray t =>
+    if t ∈ s.table then none else some { s with refused := t :: s.refused }
 
 /-- Run a schedule; `none` when it asks for a step that is not enabled. -/
 def run (s : St) : List Act → Option St
